@@ -278,4 +278,67 @@ theorem inlinable_duration (params : List (Str × BoundValue)) (name k : Str) (d
     Inlinable params name (formatDuration d) k (ParamValue.duration (formatDuration d)).bound :=
   ⟨hn, hk, hb, scansAs_dur d hd k hdur, by show Token.DURATIONVAL ≠ .EOF; decide⟩
 
+/-! ## bridge: `ScanIgnoreWhitespace` delivers the substituted stream -/
+
+/-- No bound value is of kind WS, COMMENT or EOF (`BindValue` yields IDENT, STRING, REGEX, NUMBER,
+INTEGER, TRUE, FALSE, DURATIONVAL or BOUNDPARAM). -/
+def KindsOK (params : List (Str × BoundValue)) : Prop :=
+  ∀ k v, lookupParam k params = some v → v.tok ≠ .WS ∧ v.tok ≠ .COMMENT ∧ v.tok ≠ .EOF
+
+theorem substTok_kind (params : List (Str × BoundValue)) (hk : KindsOK params) (lx : Lexeme) :
+    ((substTok params lx).tok = .EOF ↔ lx.tok = .EOF) ∧ ((substTok params lx).tok = .WS ↔ lx.tok = .WS) ∧
+    ((substTok params lx).tok = .COMMENT ↔ lx.tok = .COMMENT) := by
+  unfold substTok
+  by_cases h1 : lx.tok = .BOUNDPARAM
+  · rw [if_pos h1]
+    by_cases h2 : trimDollar lx.lit ≠ []
+    · rw [if_pos h2]
+      cases hl : lookupParam (trimDollar lx.lit) params with
+      | none => exact ⟨Iff.rfl, Iff.rfl, Iff.rfl⟩
+      | some v =>
+        obtain ⟨a, b, c⟩ := hk _ v hl
+        simp only [h1, reduceCtorEq, iff_false]
+        exact ⟨c, a, b⟩
+    · rw [if_neg h2]; exact ⟨Iff.rfl, Iff.rfl, Iff.rfl⟩
+  · rw [if_neg h1]; exact ⟨Iff.rfl, Iff.rfl, Iff.rfl⟩
+
+/-- With nothing pushed back, `ScanIgnoreWhitespace` returns the head of the substituted
+significant-token stream and leaves the cursor where the rest of that stream starts. -/
+theorem scanIWLoop_substituted (fuel : Nat) (s : PState) (hn : s.n = 0) (hp : KindsOK s.params)
+    (hf : s.r.rest.length < fuel) :
+    ∃ lx s', (scanIWLoop fuel).run s = .ok (lx, s') ∧ s'.n = 0 ∧ s'.params = s.params ∧
+      (sigTokens s.r).map (substSig s.params) =
+        if lx.tok = .EOF then [lx.sig] else lx.sig :: (sigTokens s'.r).map (substSig s.params) := by
+  induction fuel generalizing s with
+  | zero => omega
+  | succ fuel ih =>
+    have hraw : rawNext false s = ((scan s.r).1, { s with r := (scan s.r).2, buf := ((scan s.r).1 :: s.buf).take 3 }) := by
+      unfold rawNext
+      have : ¬ s.n > 0 := by omega
+      simp only [this, if_false, Bool.false_eq_true]
+    have hr1 : (rawNext false s).1 = (scan s.r).1 := by rw [hraw]
+    obtain ⟨ke, kw, kc⟩ := substTok_kind s.params hp (scan s.r).1
+    by_cases hw : (scan s.r).1.tok = .WS ∨ (scan s.r).1.tok = .COMMENT
+    · rw [scanIWLoop_run_skip fuel s (by rw [hr1, kw, kc]; exact hw), hraw]
+      have hne : (scan s.r).1.tok ≠ .EOF := by
+        rcases hw with h | h <;> rw [h] <;> decide
+      have hne' : s.r.rest ≠ [] := fun hnil => hne (scan_at_end s.r hnil)
+      have hprog := scan_progress s.r hne'
+      obtain ⟨lx, s', hrun, hn', hp', hsig⟩ := ih
+        { s with r := (scan s.r).2, buf := ((scan s.r).1 :: s.buf).take 3 } hn hp (by simp only; omega)
+      refine ⟨lx, s', hrun, hn', hp', ?_⟩
+      rw [sigTokens_step s.r]
+      simp only [hne, if_false, hw, if_true]
+      exact hsig
+    · have h1 : (scan s.r).1.tok ≠ .WS := fun e => hw (Or.inl e)
+      have h2 : (scan s.r).1.tok ≠ .COMMENT := fun e => hw (Or.inr e)
+      rw [scanIWLoop_run_sig fuel s (by rw [hr1]; exact fun e => h1 (kw.mp e))
+        (by rw [hr1]; exact fun e => h2 (kc.mp e)), pscan_run, hraw]
+      refine ⟨_, _, rfl, hn, rfl, ?_⟩
+      rw [sigTokens_step s.r]
+      simp only [hw, if_false, ke, substTok_sig]
+      by_cases he : (scan s.r).1.tok = .EOF
+      · simp only [he, if_true, List.map_cons, List.map_nil]
+      · simp only [he, if_false, List.map_cons]
+
 end InfluxQL
